@@ -3,8 +3,8 @@ package props
 // C02 — SAML responses are only ever delivered to registered endpoints.
 
 import (
-	"net/url"
 	"fmt"
+	"net/url"
 	"strings"
 	"testing"
 	"time"
